@@ -377,11 +377,12 @@ func stepLoop(c *core.Ctx, fn *core.Fn, name string, as *ast.AssignStmt, b ast.E
 			und("unrecognised loop header around the step")
 		}
 	case *ast.RangeStmt:
-		if !isParam(l.X) || l.Value == nil || objOf(info, b) == nil || objOf(info, b) != objOf(info, l.Value) {
+		// `range buf` or `range []byte(buf)` over the input parameter
+		if !isParam(strip(info, l.X)) || l.Value == nil || objOf(info, b) == nil || objOf(info, b) != objOf(info, l.Value) {
 			und("byte operand %s is not the range value of the input", c.Src(b))
 			return
 		}
-		_, isStr := info.TypeOf(l.X).Underlying().(*types.Basic)
+		_, isStr := info.TypeOf(l.X).Underlying().(*types.Basic) // type of the ranged expression itself: []byte(buf) yields bytes
 		c.Check("R2.step", name+"/loop", l.Pos(), !isStr,
 			"ranging over a string yields runes, not bytes: keys with non-ASCII bytes get a CRC different from CRC-16/XMODEM of their bytes")
 	default:
